@@ -564,6 +564,17 @@ func CipherUnmarshal(data []byte) ([]byte, error) {
 	if err != nil {
 		return nil, err
 	}
+	// The fields are re-assembled by position below: a coordinate that is negative
+	// (Bytes drops the sign) or longer than 32 bytes, or a C3 that is not 32 bytes,
+	// would turn into a different - possibly valid - raw ciphertext.
+	if cipher.XCoordinate == nil || cipher.YCoordinate == nil ||
+		cipher.XCoordinate.Sign() < 0 || cipher.YCoordinate.Sign() < 0 ||
+		cipher.XCoordinate.BitLen() > 256 || cipher.YCoordinate.BitLen() > 256 {
+		return nil, errors.New("CipherUnmarshal: invalid C1 coordinate")
+	}
+	if len(cipher.HASH) != 32 {
+		return nil, errors.New("CipherUnmarshal: C3 is not 32 bytes")
+	}
 	x := cipher.XCoordinate.Bytes()
 	y := cipher.YCoordinate.Bytes()
 	hash := cipher.HASH
